@@ -364,6 +364,26 @@ impl Quantity {
     }
 }
 
+#[cfg(feature = "verif")]
+impl Quantity {
+    /// Verification hook: the conversion target recorded by `with_conversion_target`.
+    pub fn verif_conversion_target(&self) -> Option<&Quantity> {
+        self.conversion_target.as_deref()
+    }
+
+    /// Verification hook: `partial_cmp_preserve_nan` as a code
+    /// ('i' incompatible units, 'n' NaN operand, '<' '=' '>').
+    pub fn verif_partial_cmp_preserve_nan(&self, other: &Self) -> char {
+        match self.partial_cmp_preserve_nan(other) {
+            QuantityOrdering::IncompatibleUnits => 'i',
+            QuantityOrdering::NanOperand => 'n',
+            QuantityOrdering::Ok(std::cmp::Ordering::Less) => '<',
+            QuantityOrdering::Ok(std::cmp::Ordering::Equal) => '=',
+            QuantityOrdering::Ok(std::cmp::Ordering::Greater) => '>',
+        }
+    }
+}
+
 impl From<&Number> for Quantity {
     fn from(n: &Number) -> Self {
         Quantity::from_scalar(n.to_f64())
